@@ -303,11 +303,12 @@ def load_state(vc, clock, StubHS):
     """The real progression.State with the members under contract re-bound to their extracted source."""
     stubs = time_stubs(clock, HandlerState=StubHS)
     ld = {n: vc.load(PROG, f'State.{n}', stubs=stubs)
-          for n in ('done', 'delays', 'with_outcomes', 'with_handlers', 'with_purpose')}
+          for n in ('done', 'delays', 'delay', 'with_outcomes', 'with_handlers', 'with_purpose')}
 
     class St(progression.State):
         done = property(lambda self: ld['done'].fn(self))
         delays = property(lambda self: ld['delays'].fn(self))
+        delay = property(lambda self: ld['delay'].fn(self))
 
         def with_outcomes(self, outcomes):
             return ld['with_outcomes'].fn(self, outcomes)
@@ -324,10 +325,10 @@ def all_active_finished(states):
     return And(True, *[Implies(s.active, s.finished) for s in states])
 
 
-@harness('G3', targets=[f'{PROG}.State.done', f'{PROG}.State.delays', f'{PROG}.State.with_outcomes',
+@harness('G3', targets=[f'{PROG}.State.done', f'{PROG}.State.delays', f'{PROG}.State.delay', f'{PROG}.State.with_outcomes',
                         f'{PROG}.State.with_handlers', f'{PROG}.State.with_purpose'],
          props=['C02', 'C06'],
-         clauses=['done_iff_all_active_finished', 'delays_empty_iff_all_active_finished', 'delays_cover_remaining',
+         clauses=['done_iff_all_active_finished', 'delays_empty_iff_all_active_finished', 'delays_cover_remaining', 'delay_is_min',
                   'with_outcomes_unknown_raises', 'with_outcomes_applies_exactly', 'with_handlers_activates_selected',
                   'with_purpose_repurposes', 'closed_iff_selected_finished', 'immutable'],
          canaries=['canary.always_done', 'canary.never_raises', 'canary.no_delays'],
@@ -344,7 +345,7 @@ def G3(vc):
       delays == []        <=> every active entry is finished   (C06: an unfinished active handler always
                               yields a delay entry, so the finalizer cannot be released);
       delays              has exactly one entry per active unfinished handler, each >= 0 and >= the time
-                              remaining until its `delayed`;
+                              remaining until its `delayed`;  delay is None iff delays is empty, else its minimum;
       with_outcomes(o)    raises RuntimeError iff o mentions an id not in the state; otherwise the entry of
                               every id in o is replaced by entry.with_outcome(o[id]) (called once), all others
                               are the same objects, ids/purpose/basetime kept;
@@ -359,6 +360,7 @@ def G3(vc):
     clock = Clock('loop.time')
     basetime = draw_sdt(vc, 'basetime')
     StubHS = make_stub_handler_state(vc)
+    vc.used('progression.HandlerState.finished/active/delayed', 'G1'); vc.used('progression.HandlerState.with_outcome', 'G2')
     St = load_state(vc, clock, StubHS)
     now = basetime.t + clock.now
     scenario = ['done/delays', 'with_outcomes', 'with_handlers/with_purpose', 'cycle'][vc.nondet(4, 'scenario')]
@@ -378,6 +380,10 @@ def G3(vc):
             vc.ensure('delays_cover_remaining', d >= 0)
             if e.delayed is not None:
                 vc.ensure('delays_cover_remaining', d >= e.delayed.t - now)
+        delay = st.delay
+        vc.ensure('delay_is_min', (delay is None) == (len(delays) == 0))
+        if delay is not None:
+            vc.ensure('delay_is_min', And(Or(*[Eq(delay, d) for d in delays]), *[delay <= d for d in delays]))
         vc.ensure('immutable', list(st._states.items()) == list(entries.items()))
         vc.canary('canary.always_done', done)
         vc.canary('canary.no_delays', len(delays) == 0)
